@@ -62,12 +62,51 @@ func checkC12(w *World, r *Report) {
 	evalM := w.method("RenderContext", "EvaluateExpression")
 	ctors := w.ctxConstructors()
 
+	// the binder: the function that iterates over MacroNode.params (the choke point itself, or
+	// the function that calls it after binding the parameters)
+	binder := choke
+	hasParamLoop := func(fn *ssa.Function) bool {
+		found := false
+		instrsOf(fn, func(in ssa.Instruction) {
+			if u, ok := in.(*ssa.UnOp); ok && u.Op == token.MUL {
+				if ia, ok := u.X.(*ssa.IndexAddr); ok {
+					if t, f := originField(ia.X, 0); t == "MacroNode" && f == "params" {
+						found = true
+					}
+				}
+			}
+		})
+		return found
+	}
+	var chokeCall ssa.CallInstruction
+	if !hasParamLoop(choke) {
+		binder = nil
+		if node := w.callgraph().Nodes[choke]; node != nil {
+			for _, e := range node.In {
+				if e.Site != nil && e.Site.Common().StaticCallee() == choke && hasParamLoop(e.Caller.Func) {
+					binder, chokeCall = e.Caller.Func, e.Site
+				}
+			}
+		}
+		if binder == nil {
+			cannotDecide("R12.2: no function iterating over MacroNode.params renders the macro body or calls the function that does (%s)", ssaName(choke))
+		}
+	}
+
 	// ---- R12.3
 	var macroCtx ssa.Value
 	for _, in := range renderers[choke] {
 		c := in.(ssa.CallInstruction)
 		for _, a := range c.Common().Args {
 			if isNamed(a.Type(), twigPath, "RenderContext") {
+				// the renderer split off the binder: the context is what the binder passes
+				if p, isP := a.(*ssa.Parameter); isP && chokeCall != nil {
+					for i, cp := range choke.Params {
+						if cp == p && i < len(chokeCall.Common().Args) {
+							a = chokeCall.Common().Args[i]
+						}
+					}
+				}
 				leaves, bad := ctxLeaves(a, nil, ctors)
 				if bad == "" && len(leaves) > 0 {
 					r.ok("R12.3", ssaName(choke), "macro body renders in a fresh context", w.posOf(in.Pos()), strings.Join(leaves, "/"), true)
@@ -99,6 +138,13 @@ func checkC12(w *World, r *Report) {
 		}
 		for _, a := range c.Call.Args {
 			if isNamed(a.Type(), twigPath, "RenderContext") {
+				if p, isP := a.(*ssa.Parameter); isP && chokeCall != nil {
+					for i, cp := range choke.Params {
+						if cp == p && i < len(chokeCall.Common().Args) {
+							a = chokeCall.Common().Args[i]
+						}
+					}
+				}
 				leaves, bad := ctxLeaves(a, nil, ctors)
 				if bad == "" && len(leaves) > 0 {
 					r.ok("R12.3", ssaName(choke), "macro text renders in a fresh context ("+ssaName(f)+")", w.posOf(in.Pos()), strings.Join(leaves, "/"), true)
@@ -110,10 +156,10 @@ func checkC12(w *World, r *Report) {
 	})
 
 	// ---- R12.2
-	checkMacroBinding(w, r, choke, macroCtx, setVar, evalM)
+	checkMacroBinding(w, r, binder, macroCtx, setVar, evalM)
 
 	// ---- R12.4
-	chokeObj, _ := choke.Object().(*types.Func)
+	chokeObj, _ := binder.Object().(*types.Func)
 	n4 := 0
 	for _, fn := range w.pkgFuncs() {
 		instrsOf(fn, func(in ssa.Instruction) {
@@ -124,7 +170,7 @@ func checkC12(w *World, r *Report) {
 			n4++
 			args := callArgs(c)
 			last := args[len(args)-1]
-			construct := "arguments handed to " + ssaName(choke)
+			construct := "arguments handed to " + ssaName(binder)
 			if why := macroArgsOrigin(w, last, evalM, 0); why != "" {
 				r.ok("R12.4", ssaName(fn), construct, w.posOf(in.Pos()), why, true)
 			} else {
@@ -328,7 +374,7 @@ func checkMacroBinding(w *World, r *Report, fn *ssa.Function, macroCtx ssa.Value
 			sites = append(sites, c)
 		}
 	})
-	r.floor("parameter bindings in the macro choke point", len(sites), 2)
+	r.floor("parameter bindings in the macro choke point", len(sites), 1)
 	kinds := map[string]int{}
 	for _, c := range sites {
 		pos := w.posOf(c.Pos())
@@ -342,64 +388,20 @@ func checkMacroBinding(w *World, r *Report, fn *ssa.Function, macroCtx ssa.Value
 			}
 		}
 		val := callArgs(c)[1]
-		switch {
-		case isNilConst(val):
-			kinds["nil"]++
-			r.ok("R12.2", name, construct+" to null", pos, "parameter without argument and without default", true)
-		default:
-			// args[i]
-			if u, ok := val.(*ssa.UnOp); ok && u.Op == token.MUL {
-				if ia, ok := u.X.(*ssa.IndexAddr); ok && ia.X == ssa.Value(argsParam) {
-					kinds["arg"]++
-					guarded := false
-					for _, b := range fn.Blocks {
-						v, trueIdx, ok := ifCond(b)
-						if !ok {
-							continue
-						}
-						bo, ok := v.(*ssa.BinOp)
-						if !ok || bo.Op != token.LSS || bo.X != ia.Index {
-							continue
-						}
-						lc, ok := bo.Y.(*ssa.Call)
-						if !ok {
-							continue
-						}
-						if bi, ok := lc.Call.Value.(*ssa.Builtin); !ok || bi.Name() != "len" || lc.Call.Args[0] != ssa.Value(argsParam) {
-							continue
-						}
-						t := b.Succs[trueIdx]
-						if t == c.Block() || t.Dominates(c.Block()) {
-							guarded = true
-						}
-					}
-					switch {
-					case ia.Index != idxVal:
-						r.bad("R12.2", name, construct+" to args[i]", pos, "the argument is not taken at the position of the parameter (index differs from the iteration index): arguments do not bind positionally")
-					case !guarded:
-						r.bad("R12.2", name, construct+" to args[i]", pos, "args[i] is read without the test i < len(args)")
-					default:
-						r.ok("R12.2", name, construct+" to args[i]", pos, "same index as the parameter, under i < len(args)", true)
-					}
-					continue
-				}
+		for _, res := range classifyBinding(w, fn, val, c.Block(), idxVal, paramVal, argsParam, evalM, 0) {
+			switch res.kind {
+			case "nil":
+				kinds["nil"]++
+				r.ok("R12.2", name, construct+" to null", pos, "parameter without argument and without default"+res.via, true)
+			case "arg":
+				kinds["arg"]++
+				r.ok("R12.2", name, construct+" to args[i]", pos, "same index as the parameter, under i < len(args)"+res.via, true)
+			case "default":
+				kinds["default"]++
+				r.ok("R12.2", name, construct+" to its evaluated default", pos, "default looked up under the parameter's own name"+res.via, true)
+			default:
+				r.bad("R12.2", name, construct+res.construct, pos, res.problem)
 			}
-			// evaluated default
-			if ex, ok := val.(*ssa.Extract); ok {
-				if ec, ok := ex.Tuple.(*ssa.Call); ok && calleeFunc(ec) == evalM {
-					src := callArgs(ec)[0]
-					if dex, ok := src.(*ssa.Extract); ok {
-						if lk, ok := dex.Tuple.(*ssa.Lookup); ok && lk.Index == paramVal {
-							if t, f := originField(lk.X, 0); t == "MacroNode" && f == "defaults" {
-								kinds["default"]++
-								r.ok("R12.2", name, construct+" to its evaluated default", pos, "default looked up under the parameter's own name", true)
-								continue
-							}
-						}
-					}
-				}
-			}
-			r.bad("R12.2", name, construct, pos, "the bound value is neither args[i], the evaluated default of this parameter, nor null")
 		}
 	}
 	for _, k := range []string{"arg", "default", "nil"} {
@@ -459,4 +461,117 @@ func checkMacroBinding(w *World, r *Report, fn *ssa.Function, macroCtx ssa.Value
 	} else {
 		r.bad("R12.2", name, construct, w.posOf(fn.Pos()), fmt.Sprintf("a path through one iteration executes between %d and %d bindings of the parameter: a parameter can stay unbound (it then reads an outer variable of the same name) or be bound twice", minC, maxC))
 	}
+}
+
+type bindingClass struct {
+	kind      string // arg | default | nil | bad
+	construct string
+	problem   string
+	via       string
+}
+
+// classifyBinding: what the value bound to the current parameter is — args[i] under i < len(args),
+// the evaluated default of this parameter, null — directly or as the result of a helper that is
+// handed the iteration index, the parameter name and the argument list.
+func classifyBinding(w *World, fn *ssa.Function, val ssa.Value, at *ssa.BasicBlock, idxVal, paramVal ssa.Value, argsParam ssa.Value, evalM *types.Func, depth int) []bindingClass {
+	bad := func(c, p string) []bindingClass { return []bindingClass{{kind: "bad", construct: c, problem: p}} }
+	if isNilConst(val) {
+		return []bindingClass{{kind: "nil"}}
+	}
+	// args[i]
+	if u, ok := val.(*ssa.UnOp); ok && u.Op == token.MUL {
+		if ia, ok := u.X.(*ssa.IndexAddr); ok && argsParam != nil && sameValue(ia.X, argsParam) {
+			guarded := false
+			for _, b := range fn.Blocks {
+				v, trueIdx, ok := ifCond(b)
+				if !ok {
+					continue
+				}
+				bo, ok := v.(*ssa.BinOp)
+				if !ok || bo.Op != token.LSS || !sameValue(bo.X, ia.Index) {
+					continue
+				}
+				lc, ok := bo.Y.(*ssa.Call)
+				if !ok {
+					continue
+				}
+				if bi, ok := lc.Call.Value.(*ssa.Builtin); !ok || bi.Name() != "len" || !sameValue(lc.Call.Args[0], argsParam) {
+					continue
+				}
+				t := b.Succs[trueIdx]
+				if t == at || t.Dominates(at) {
+					guarded = true
+				}
+			}
+			switch {
+			case !sameValue(ia.Index, idxVal):
+				return bad(" to args[i]", "the argument is not taken at the position of the parameter (index differs from the iteration index): arguments do not bind positionally")
+			case !guarded:
+				return bad(" to args[i]", "args[i] is read without the test i < len(args)")
+			}
+			return []bindingClass{{kind: "arg"}}
+		}
+	}
+	if ex, ok := val.(*ssa.Extract); ok && ex.Index == 0 {
+		if ec, ok := ex.Tuple.(*ssa.Call); ok {
+			// evaluated default
+			if calleeFunc(ec) == evalM {
+				src := callArgs(ec)[0]
+				if dex, ok := src.(*ssa.Extract); ok {
+					if lk, ok := dex.Tuple.(*ssa.Lookup); ok && sameValue(lk.Index, paramVal) {
+						if t, f := originField(lk.X, 0); t == "MacroNode" && f == "defaults" {
+							return []bindingClass{{kind: "default"}}
+						}
+					}
+				}
+				return bad("", "the bound value is an evaluated expression that is not this parameter's default")
+			}
+			// a helper that is handed (i, name, args)
+			if h := ec.Call.StaticCallee(); h != nil && h.Pkg != nil && h.Pkg.Pkg.Path() == twigPath && len(h.Blocks) > 0 && depth < 2 {
+				var hIdx, hName, hArgs ssa.Value
+				for i, a := range ec.Call.Args {
+					if i >= len(h.Params) {
+						break
+					}
+					switch {
+					case sameValue(a, idxVal):
+						hIdx = h.Params[i]
+					case sameValue(a, paramVal):
+						hName = h.Params[i]
+					case argsParam != nil && sameValue(a, argsParam):
+						hArgs = h.Params[i]
+					}
+				}
+				if hIdx == nil || hName == nil || hArgs == nil {
+					return bad("", "the bound value comes from "+h.Name()+", which is not handed the iteration index, the parameter name and the argument list")
+				}
+				var out []bindingClass
+				instrsOf(h, func(in ssa.Instruction) {
+					ret, ok := in.(*ssa.Return)
+					if !ok {
+						return
+					}
+					res := retResults(ret)
+					if len(res) == 0 {
+						return
+					}
+					// error returns carry no value
+					if len(res) == 2 && !isNilConst(res[1]) {
+						if _, isEx := res[1].(*ssa.Extract); !isEx {
+							return
+						}
+					}
+					for _, bc := range classifyBinding(w, h, res[0], ret.Block(), hIdx, hName, hArgs, evalM, depth+1) {
+						bc.via = " (in " + h.Name() + ")"
+						out = append(out, bc)
+					}
+				})
+				if len(out) == 0 {
+					return bad("", "the helper "+h.Name()+" returns no value")
+				}
+				return out
+			}
+		}
+	}
+	return bad("", "the bound value is neither args[i], the evaluated default of this parameter, nor null")
 }
